@@ -16,6 +16,10 @@ import (
 
 // Main dispatches to the property selected by VERIF_PROP. It is called from the generated glue test.
 func Main(t *testing.T, reg *Registry) {
+	if os.Getenv("VERIF_C12_SERVER") != "" {
+		interpServer() // helper process of C12: serves the dynamic interpreter over descriptors 3/4
+		return
+	}
 	debug.SetMaxStack(256 << 20) // a runaway recursion dies quickly (and is attributed by the driver's journal re-run)
 	ctx, _ := json.Marshal(map[string]string{"schema_set": reg.SetName, "generator_args": os.Getenv("VERIF_GEN_ARGS")})
 	pbt.Context = ctx
@@ -117,7 +121,7 @@ func tagBytes(tag uint32) []byte {
 }
 
 func hexHead(b []byte) string {
-	if len(b) > 48 {
+	if len(b) > 48 && os.Getenv("VERIF_FULLHEX") == "" {
 		return fmt.Sprintf("%x…(%d bytes)", b[:48], len(b))
 	}
 	return fmt.Sprintf("%x", b)
